@@ -4,6 +4,7 @@ Property theorems only (helper lemmas: Proofs/Lemmas/XmlText.lean, Proofs/Lemmas
 -/
 import Proofs.Lemmas.XmlText
 import Proofs.Lemmas.CimXml12
+import Proofs.Props.XmlSyntax
 
 namespace C01
 open Pywbem.Model Pywbem.Model.XmlText Proofs.XmlText Proofs.CimXml Pywbem.Proto
@@ -206,5 +207,54 @@ theorem C01_method_roundtrip_fails_without_type (C : DecCodec) (S : Spec) (hC : 
 theorem C01_key_roundtrip_fails_unnamed (C : DecCodec) (v : Int) :
     decKeybinding C (encKey C.toCodec (.mk none (.pyint v))) ≠ .ok (wdKey C.toCodec (.mk none (.pyint v))) :=
   unnamed_key_differs C v
+
+end C01
+
+/-! ### element-syntax layer discharged: the concrete parser `XmlParse.par` in place of the XmlSyntax hypothesis -/
+
+namespace C01
+open Pywbem.Model Pywbem.Model.XmlText Pywbem.Model.XmlParse
+
+theorem C01_encObj_isElem (C : DecCodec) (o : Obj) : (encObj C.toCodec o).isElem = true := by
+  cases o with
+  | path p => obtain ⟨n, as, ks, h⟩ := Proofs.CimXml.encPath_shape C.toCodec p; simp only [encObj, h, Xml.isElem]
+  | inst i =>
+    obtain ⟨c, p, ps, qs⟩ := i
+    simp only [encObj, encInst]
+    split <;> rfl
+  | cls c => obtain ⟨n, sup, p, ps, ms, qs⟩ := c; simp only [encObj, encCls]; rfl
+  | prop p => obtain ⟨n, as, ks, h, _⟩ := Proofs.CimXml.encProp_shape C p; simp only [encObj, h, Xml.isElem]
+  | meth m => obtain ⟨as, ks, h⟩ := Proofs.CimXml.encMeth_shape C m; simp only [encObj, h, Xml.isElem]
+  | param p => obtain ⟨n, as, ks, h, _⟩ := Proofs.CimXml.encParam_shape C p; simp only [encObj, h, Xml.isElem]
+  | qual q => obtain ⟨as, ks, h⟩ := Proofs.CimXml.encQual_shape C q; simp only [encObj, h, Xml.isElem]
+  | qdecl q => simp only [encObj, encQualDecl]; rfl
+
+/-- **C01 end to end (serialise → parse → decode), partial.**  With the concrete XML parser proved
+    against the serializer (Proofs/Props/XmlSyntax.lean) the element-syntax layer is no longer a
+    hypothesis: bytes written for a sendable object, parsed and decoded, give the object with the
+    DSP0201 defaults.  *Partial*: `StableTree` excludes what `C01_text_wire` shows is changed or
+    dropped by the wire itself — strings containing CR (finding C01-KF1), names containing TAB/LF/CR,
+    and empty string values (an empty text node is not re-created by the parser; the decoder reads
+    an absent text as `''`, which the correspondence run confirms but which is not proved here). -/
+theorem C01_end_to_end_partial (C : DecCodec) (S : Proofs.CimXml.Spec) (hC : Proofs.CimXml.CodecOk C S) (o : Obj)
+    (h : Proofs.CimXml.Sendable S o) (d : Nat) (hd : Proofs.CimXml.embDepth o ≤ d)
+    (hw : WfTree (encObj C.toCodec o)) (hs : StableTree (encObj C.toCodec o)) :
+    (par (Xml.ser (encObj C.toCodec o))).map (decode C d) = some (.ok (Proofs.CimXml.wdObj C.toCodec o)) := by
+  rw [XmlSyntax.XmlSyntax_par_ser_stable _ hw (C01_encObj_isElem _ o) hs]
+  simp [C01_roundtrip C S hC o h d hd]
+
+/-- the `par_inst` / `par_cls` fields of `CodecOk` hold for every codec that uses the concrete parser -/
+theorem C01_par_fields_discharged (C : DecCodec) (hpar : C.par = par) :
+    (∀ i, WfTree (encInstElem C.toCodec i) → StableTree (encInstElem C.toCodec i) →
+        C.par (Xml.ser (encInstElem C.toCodec i)) = some (encInstElem C.toCodec i)) ∧
+    (∀ c, WfTree (encCls C.toCodec c) → StableTree (encCls C.toCodec c) →
+        C.par (Xml.ser (encCls C.toCodec c)) = some (encCls C.toCodec c)) := by
+  constructor
+  · intro i hw hs
+    rw [hpar]
+    exact XmlSyntax.XmlSyntax_par_ser_stable _ hw (by obtain ⟨c, p, ps, qs⟩ := i; simp only [encInstElem]; rfl) hs
+  · intro c hw hs
+    rw [hpar]
+    exact XmlSyntax.XmlSyntax_par_ser_stable _ hw (by obtain ⟨n, sup, p, ps, ms, qs⟩ := c; simp only [encCls]; rfl) hs
 
 end C01
